@@ -49,8 +49,8 @@ CHECKS["C14"] = {
     "unconfirmed_is_violation": True,
     "replay_times": 2,
     "env": {"DEADLOCK_DETECTION_ENABLED": "true", "DEADLOCK_TIMEOUT_SECONDS": "300", "GORACE": "halt_on_error=0"},
-    "runs": [{"test": "TestC14", "shards_quick": 12, "checks_quick": 6, "shards_thorough": 12, "checks_thorough": 140, "args": ["-rapid.shrinktime", "1s"]},
-             {"test": "TestC14MidCycle", "shards_quick": 4, "checks_quick": 150, "shards_thorough": 4, "checks_thorough": 4000}],
+    "runs": [{"test": "TestC14", "shards_quick": 12, "checks_quick": 6, "shards_thorough": 8, "checks_thorough": 200, "args": ["-rapid.shrinktime", "1s"]},
+             {"test": "TestC14MidCycle", "shards_quick": 4, "checks_quick": 150, "shards_thorough": 4, "checks_thorough": 3000}],
     "rule": "runs of the real asynchronous stack (entry point: scheduling loop, three RM event handler goroutines, RM proxy, timers, quota preemption loop, event system) built with the race "
             "detector and with the lock tracker (go-deadlock) switched on: 3-6 client goroutines send generated request scripts (15-60 requests each: applications incl. gang, asks, releases, "
             "application removals, node add/update/drain/remove, configuration reloads) at the same time, 1-3 reader goroutines call the real REST handlers in process, the shim side confirms "
